@@ -278,35 +278,78 @@ fn unhex(s: &str) -> Vec<u8> {
     (0..s.len() / 2).map(|i| u8::from_str_radix(&s[2 * i..2 * i + 2], 16).unwrap()).collect()
 }
 
-fn work_input(family: &str, n: usize) -> (Entry, u8, Vec<u8>) {
-    let rep = |pre: &[u8], unit: &[u8], post: &[u8]| {
-        let mut v = pre.to_vec();
-        for _ in 0..n / unit.len() {
-            v.extend_from_slice(unit);
-        }
-        v.extend_from_slice(post);
-        v
-    };
-    match family {
-        "value" => (Entry::Resp, 0, rep(b"HTTP/1.1 200 OK\r\nV: ", b"v", b"\r\n\r\n")),
-        "trailing-ws" => (Entry::Req, 0, rep(b"GET / HTTP/1.1\r\nA: b", b" \t", b"\r\n\r\n")),
-        "many-trailing-ws" => (Entry::Req, 0, rep(b"GET / HTTP/1.1\r\n", b"A: b      \t      \r\n", b"\r\n")),
-        "folds" => (Entry::Resp, 2, rep(b"HTTP/1.1 200 OK\r\nH: x\r\n", b" y\r\n", b"\r\n")),
-        "folded-ws-tail" => (Entry::Resp, 2, rep(b"HTTP/1.1 200 OK\r\nH: x", b" \t", b"\r\n \r\n\r\n")),
-        "ignored" => (Entry::Resp, 32, rep(b"HTTP/1.1 200 OK\r\n", b"bad line\r\n", b"\r\n")),
-        "tiny-headers" => (Entry::Req, 0, rep(b"GET / HTTP/1.1\r\n", b"a:b\r\n", b"\r\n")),
-        "htab-8" => (Entry::Resp, 0, rep(b"HTTP/1.1 200 OK\r\nV: x", b"vvvvvvv\t", b"\r\n\r\n")),
-        "target" => (Entry::Req, 0, rep(b"GET /", b"a", b" HTTP/1.1\r\n\r\n")),
-        "chunk-ext" => (Entry::Chunk, 0, rep(b"1f;", b"e\n", b"\r\n")),
-        "space-before-first" => (Entry::Resp, 16, rep(b"HTTP/1.1 200 OK\r\n", b" \t", b"A: b\r\n\r\n")),
-        _ => {
-            eprintln!("unknown family");
-            std::process::exit(2);
-        }
-    }
+struct Family {
+    name: &'static str,
+    entry: Entry,
+    cfg: u8,
+    gen: fn(usize) -> Vec<u8>,
 }
 
-pub const WORK_FAMILIES: [&str; 11] = ["value", "trailing-ws", "many-trailing-ws", "folds", "folded-ws-tail", "ignored", "tiny-headers", "htab-8", "target", "chunk-ext", "space-before-first"];
+fn rep(pre: &[u8], unit: &[u8], n: usize, post: &[u8]) -> Vec<u8> {
+    let k = n / unit.len().max(1);
+    let mut v = Vec::with_capacity(pre.len() + k * unit.len() + post.len());
+    v.extend_from_slice(pre);
+    for _ in 0..k {
+        v.extend_from_slice(unit);
+    }
+    v.extend_from_slice(post);
+    v
+}
+
+const RQ: &[u8] = b"GET / HTTP/1.1\r\n";
+const RS: &[u8] = b"HTTP/1.1 200 OK\r\n";
+
+/// The same adversarial generators as the explorer's S8 size families.
+fn families() -> Vec<Family> {
+    vec![
+        Family { name: "huge-method", entry: Entry::Req, cfg: 0, gen: |n| rep(b"", b"M", n, b" / HTTP/1.1\r\n\r\n") },
+        Family { name: "huge-target", entry: Entry::Req, cfg: 0, gen: |n| rep(b"GET /", b"a", n, b" HTTP/1.1\r\n\r\n") },
+        Family { name: "huge-utf8-target", entry: Entry::Req, cfg: 0, gen: |n| rep(b"GET /", "é€".as_bytes(), n, b" HTTP/1.1\r\n\r\n") },
+        Family { name: "huge-header-name", entry: Entry::Req, cfg: 0, gen: |n| rep(RQ, b"n", n, b": v\r\n\r\n") },
+        Family { name: "huge-header-value", entry: Entry::Resp, cfg: 0, gen: |n| rep(b"HTTP/1.1 200 OK\r\nV: ", b"v", n, b"\r\n\r\n") },
+        Family { name: "huge-obs-text-value", entry: Entry::Resp, cfg: 0, gen: |n| rep(b"HTTP/1.1 200 OK\r\nV: ", b"\xff\x80", n, b"\r\n\r\n") },
+        Family { name: "huge-reason", entry: Entry::Resp, cfg: 0, gen: |n| rep(b"HTTP/1.1 200 ", b"r ", n, b"\r\n\r\n") },
+        Family { name: "huge-chunk-extension", entry: Entry::Chunk, cfg: 0, gen: |n| rep(b"1f;", b"e\n", n, b"\r\n") },
+        Family { name: "chunk-whitespace-run", entry: Entry::Chunk, cfg: 0, gen: |n| rep(b"1f", b" \t", n, b";x\r\n") },
+        Family { name: "tiny-headers", entry: Entry::Req, cfg: 0, gen: |n| rep(RQ, b"a:b\r\n", n, b"\r\n") },
+        Family { name: "tiny-headers-parse_headers", entry: Entry::Headers, cfg: 0, gen: |n| rep(b"", b"a:b\n", n, b"\n") },
+        Family { name: "empty-value-headers", entry: Entry::Resp, cfg: 0, gen: |n| rep(RS, b"a:\r\n", n, b"\r\n") },
+        Family { name: "folded-lines", entry: Entry::Resp, cfg: 2, gen: |n| rep(b"HTTP/1.1 200 OK\r\nH: x\r\n", b" y\r\n", n, b"\r\n") },
+        Family { name: "folded-empty-lines", entry: Entry::Resp, cfg: 2, gen: |n| rep(b"HTTP/1.1 200 OK\r\nH:\r\n", b" \r\n", n, b"\r\n") },
+        Family { name: "folded-blank-lines", entry: Entry::Resp, cfg: 2, gen: |n| rep(b"HTTP/1.1 200 OK\r\nX: a\r\n", b" \r\n", n, b"\r\n") },
+        Family { name: "folded-blank-lines-lf", entry: Entry::Resp, cfg: 2 | 32, gen: |n| rep(b"HTTP/1.1 200 OK\nX: a\n", b"\t\n", n, b"\n") },
+        Family { name: "folded-headers", entry: Entry::Resp, cfg: 2, gen: |n| rep(RS, b"h: a\r\n b\r\n", n, b"\r\n") },
+        Family { name: "folded-whitespace-tail", entry: Entry::Resp, cfg: 2, gen: |n| rep(b"HTTP/1.1 200 OK\r\nH: x", b" \t", n, b"\r\n \r\n\r\n") },
+        Family { name: "ignored-lines", entry: Entry::Resp, cfg: 32, gen: |n| rep(RS, b"bad line\r\n", n, b"\r\n") },
+        Family { name: "ignored-lines-request", entry: Entry::Req, cfg: 64, gen: |n| rep(RQ, b": x\n", n, b"\r\n") },
+        Family { name: "ignored-long-line", entry: Entry::Resp, cfg: 32, gen: |n| rep(b"HTTP/1.1 200 OK\r\n(", b"x", n, b"\r\nA: b\r\n\r\n") },
+        Family { name: "ignored-folded-mix", entry: Entry::Resp, cfg: 32 | 2, gen: |n| rep(RS, b"a: b\r\n c\x01\r\n d\r\n", n, b"\r\n") },
+        Family { name: "space-before-first-header", entry: Entry::Resp, cfg: 16, gen: |n| rep(RS, b" \t", n, b"A: b\r\n\r\n") },
+        Family { name: "space-lines-before-first-header", entry: Entry::Req, cfg: 16 | 64, gen: |n| rep(RQ, b" (\r\n", n, b"A: b\r\n\r\n") },
+        Family { name: "whitespace-after-colon", entry: Entry::Req, cfg: 0, gen: |n| rep(b"GET / HTTP/1.1\r\nA:", b" \t", n, b"b\r\n\r\n") },
+        Family { name: "whitespace-after-name", entry: Entry::Resp, cfg: 1, gen: |n| rep(b"HTTP/1.1 200 OK\r\nA", b" \t", n, b": b\r\n\r\n") },
+        Family { name: "trailing-whitespace-value", entry: Entry::Req, cfg: 0, gen: |n| rep(b"GET / HTTP/1.1\r\nA: b", b" \t", n, b"\r\n\r\n") },
+        Family { name: "whitespace-only-value", entry: Entry::Req, cfg: 0, gen: |n| rep(b"GET / HTTP/1.1\r\nA:", b"\t ", n, b"\r\n\r\n") },
+        Family { name: "many-trailing-whitespace-values", entry: Entry::Req, cfg: 0, gen: |n| rep(RQ, b"A: b      \t      \r\n", n, b"\r\n") },
+        Family { name: "near-miss-htab-every-8", entry: Entry::Resp, cfg: 0, gen: |n| rep(b"HTTP/1.1 200 OK\r\nV: x", b"vvvvvvv\t", n, b"\r\n\r\n") },
+        Family { name: "near-miss-htab-every-16", entry: Entry::Resp, cfg: 0, gen: |n| rep(b"HTTP/1.1 200 OK\r\nV: x", b"vvvvvvvvvvvvvvv\t", n, b"\r\n\r\n") },
+        Family { name: "near-miss-htab-every-32", entry: Entry::Resp, cfg: 0, gen: |n| rep(b"HTTP/1.1 200 OK\r\nV: x", b"vvvvvvvvvvvvvvvvvvvvvvvvvvvvvvv\t", n, b"\r\n\r\n") },
+        Family { name: "near-miss-short-values", entry: Entry::Resp, cfg: 0, gen: |n| rep(RS, b"k: vvvvvvvvvvvvvvvvvvvvvvvvvvvvvv\r\n", n, b"\r\n") },
+        Family { name: "near-miss-short-targets-names", entry: Entry::Req, cfg: 0, gen: |n| rep(RQ, b"nnnnnnnnnnnnnnnnnnnnnnnnnnnnnnn:v\n", n, b"\n") },
+        Family { name: "leading-empty-lines", entry: Entry::Req, cfg: 0, gen: |n| rep(b"", b"\r\n\n", n, b"GET / HTTP/1.1\r\n\r\n") },
+        Family { name: "leading-empty-lines-response", entry: Entry::Resp, cfg: 0, gen: |n| rep(b"", b"\n", n, b"HTTP/1.1 200 OK\r\n\r\n") },
+        Family { name: "multi-space-request-line", entry: Entry::Req, cfg: 4, gen: |n| {
+            let mut v = rep(b"GET", b" ", n / 2, b"/");
+            v.extend(rep(b"", b" ", n / 2, b"HTTP/1.1\r\n\r\n"));
+            v
+        } },
+        Family { name: "multi-space-status-line", entry: Entry::Resp, cfg: 8, gen: |n| {
+            let mut v = rep(b"HTTP/1.1", b" ", n / 2, b"200");
+            v.extend(rep(b"", b" ", n / 2, b"OK\r\n\r\n"));
+            v
+        } },
+    ]
+}
 
 fn main() {
     let args: Vec<String> = std::env::args().collect();
@@ -362,13 +405,21 @@ fn main() {
         Some("work") => {
             force(&backend);
             let n: usize = args[3].parse().unwrap();
-            let (e, cfg, input) = work_input(&args[2], n);
-            let r = call(e, cfg, n / 3 + 8, &input);
+            let fams = families();
+            let f = match fams.iter().find(|f| f.name == args[2]) {
+                Some(f) => f,
+                None => {
+                    eprintln!("unknown family");
+                    std::process::exit(2);
+                }
+            };
+            let input = (f.gen)(n);
+            let r = call(f.entry, f.cfg, n / 3 + 8, &input);
             println!("{} {}", input.len(), &r[..r.len().min(40)]);
         }
         Some("families") => {
-            for f in WORK_FAMILIES {
-                println!("{}", f);
+            for f in families() {
+                println!("{}", f.name);
             }
         }
         _ => {
